@@ -20,7 +20,7 @@ RULE = ("cases = a generated multi-statement script (one column per line where p
         "(style x text x line position) over two base scripts, then seeded random multi-insertion scripts. Indented multi-line block "
         "comments and comments containing another comment marker are generated as separate, single-comment cases (known findings). "
         "Non-trivial = at least one comment inserted; distinct = distinct commented script."
-        " Added after seeded defects: interior and closing lines of block comments that start like ignored lines or comments, '--' inside '--' comments, '#text' / '##text', end-of-input tails (no final ';', no final newline), the comments entry on a second run of the same object, comment text glued to the dashes or the opener, comments glued to the code, a block comment's closing line that goes on with another comment, comment texts with '; create ...' and with parentheses that do not pair up, statements closed by the start of the next statement instead of ';'.")
+        " Added after seeded defects: interior and closing lines of block comments that start like ignored lines or comments, '--' inside '--' comments, '#text' / '##text', end-of-input tails (no final ';', no final newline), the comments entry on a second run of the same object, comment text glued to the dashes or the opener, comments glued to the code, a block comment's closing line that goes on with another comment, comment texts with '; create ...' and with parentheses that do not pair up, statements closed by the start of the next statement instead of ';', texts with [ ] ` delimiters, bracket-named (mssql) bases, a quarter of the cases with normalize_names=True.")
 ASSUMPTIONS = ["comment texts contain no quotes and (outside the known-finding class) none of the sequences --, /*, */",
                "no code follows a comment on the same line", "containment of a reported comment item is tested after removing white space (the pre-processor re-spaces , ( ) = inside comment text too)"]
 MIN_EVENTS = {"statements": 100, "run_return": 100}
@@ -29,7 +29,9 @@ TEXTS = ["plain words", "create table x (y int);", "a, b (c) ; d", "select * fro
          "alter table t drop column a;", "NOT NULL DEFAULT 5", "todo: fix (later), maybe", "#hash inside", "CREATE SEQUENCE s START 1;", "ends with semicolon;", "a;b;c",
          # a statement terminator followed by a statement keyword inside the text; parentheses that do not pair up
          "old layout; create table zz (q int);", "was bigint; DROP TABLE t1 once migrated", "x; alter table t add y int", "a;CREATE TABLE q (z int)", "done ; Create index i on t (a);",
-         "surrogate key (see ticket 12", "1) short code", "end of t1 (legacy", "((", "))", ") ("]
+         "surrogate key (see ticket 12", "1) short code", "end of t1 (legacy", "((", "))", ") (",
+         # delimiters of other name styles inside the text
+         "see note [1]", "FK to [dbo].[customers]", "uses `x` and `y`", "[", "]", "`"]
 NESTED = ["50% done -- nested", "a /* b", "a */ b", "x -- y", "-- double", "a /* b */ c"]
 # a '--' inside a '--' comment is ordinary comment text (only '--' inside /* */ and /* inside -- are the known finding)
 DASH_TEXTS = ["first remark -- second remark", "-- banner --", "a--b", "ends with dashes --", "50% -- done (later), x = 1"]
@@ -40,7 +42,7 @@ BASES = [
     ["CREATE TABLE t1 (a int PRIMARY KEY, b decimal(10,2));", "ALTER TABLE t1 ADD CONSTRAINT fk FOREIGN KEY (a) REFERENCES p (k);", "CREATE INDEX i ON t1 (b);"],
 ]
 KINDS = ["core_table", "tbl_ml", "tbl_uq", "tbl_ine", "check", "fk_table", "seq", "seq_ml", "type_enum", "type_obj", "domain", "schema", "schema_auth",
-         "db", "tspace", "drop", "hql_ml", "hql", "mysql", "snowflake", "alter_group", "alter_group2", "alter_pk", "set"]
+         "db", "tspace", "drop", "hql_ml", "hql", "mysql", "snowflake", "alter_group", "alter_group2", "alter_pk", "set", "mssql", "bigquery"]
 
 
 INNER_UNTERMINATED_P = 0.2
@@ -143,12 +145,15 @@ def check_case(ctx, case):
     if inserted:
         ctx.nontrivial_case(digest(text))
     kf = case.get("kf")
-    b = parse("\n".join(base_lines) + end)
+    ctor = case.get("ctor") or None
+    b = parse("\n".join(base_lines) + end, ctor)
     if b[0] != "ok":
         ctx.inconclusive_because("base script raises: %s" % (b,))
         return
-    r = parse(text)
+    r = parse(text, ctor)
     ctx.obs["comments_inserted"] += len(inserted)
+    if ctor:
+        ctx.obs["cases_with_normalize_names"] += 1
     for st in case.get("styles", []):
         ctx.obs["style:" + st] += 1
     if r[0] == "exc":
@@ -179,7 +184,7 @@ def check_case(ctx, case):
     if inserted and case.get("gen") != "kf":
         try:
             from simple_ddl_parser import DDLParser
-            p = DDLParser(text)
+            p = DDLParser(text, **(ctor or {}))
             first = comments_of(p.run())
             keep = list(first)
             second = comments_of(p.run(group_by_type=False))
@@ -213,6 +218,8 @@ def random_case(rng):
         _NO_SEMI[0] = False
     if inner:
         case["inner_unterminated"] = True
+    if rng.random() < 0.25:
+        case["ctor"] = {"normalize_names": True}      # the comment scanner may not depend on the naming option
     return case
 
 
